@@ -18,7 +18,7 @@ import (
 // C20 — Rewind restarts demuxing from a clean state.
 
 func TestC20Rewind(t *testing.T) {
-	rec := obs.NewRecorder("C20", "rewind", "rapid: well-formed streams (PAT before PMTs, constant PID roles, multi-section units, units over several packets; 30% end in the middle of a packet; the PAT's programme 0 may name a PID of its own that carries NIT sections, also before the PAT) on a bytes.Reader x {explicit 188, auto-detected size} x EVERY number k of calls before Rewind (k = 0..total, the calls being NextData, NextPacket or a drawn mixture) x a second Rewind at a drawn point; oracle: Rewind returns (0, nil) and the NextData sequence afterwards equals a fresh Demuxer's on the same bytes (as does NextPacket's); non-trivial = some rewind point falls in the middle of a unit or with parsed sections still buffered (true for every stream with a multi-packet or multi-section unit); distinct by stream bytes + configuration")
+	rec := obs.NewRecorder("C20", "rewind", "rapid: well-formed streams (PAT before PMTs, constant PID roles, multi-section units, units over several packets; 30% end in the middle of a packet; the PAT's programme 0 may name a PID of its own that carries NIT sections, also before the PAT) on a bytes.Reader x {explicit 188, auto-detected size} x {no skipper, a PacketSkipper dropping one PID} x EVERY number k of calls before Rewind (k = 0..total, the calls being NextData, NextPacket or a drawn mixture) x a second Rewind at a drawn point; oracle: Rewind returns (0, nil) and the NextData sequence afterwards equals a fresh Demuxer's on the same bytes (as does NextPacket's); non-trivial = some rewind point falls in the middle of a unit or with parsed sections still buffered (true for every stream with a multi-packet or multi-section unit); distinct by stream bytes + configuration")
 	defer rec.Flush()
 	rapid.Check(t, func(t *rapid.T) {
 		o := defaultStreamOpts()
@@ -43,6 +43,20 @@ func TestC20Rewind(t *testing.T) {
 		var opts []func(*astits.Demuxer)
 		if !auto {
 			opts = append(opts, astits.DemuxerOptPacketSize(188))
+		}
+		if gen.Chance(t, 30, "skipper") {
+			// a PacketSkipper set by option stays in force after a Rewind, as it is for a fresh Demuxer given the same options
+			var cands []uint16
+			for _, pid := range m.pids {
+				if pid != 0 && !m.pmtPIDs[pid] {
+					cands = append(cands, pid)
+				}
+			}
+			if len(cands) > 0 {
+				skipPID := cands[gen.Uniform(t, len(cands), "skippid")]
+				opts = append(opts, astits.DemuxerOptPacketSkipper(func(p *astits.Packet) bool { return p.Header.PID == skipPID }))
+				rec.Class("with_packet_skipper")
+			}
 		}
 		fresh := demuxAllR(bytes.NewReader(stream), len(stream)/188+64, opts...)
 		if len(fresh.errs) > 0 || !fresh.ended {
